@@ -40,10 +40,9 @@ def concretise(job, unit, res, workdir, log):
         specs = {k: R.expand_spec(v) for k, v in job.get('specs', {}).items()}
         fn = job['fn']
         # lowered text without contracts; real callee bodies are used where they exist
-        text, lw = R.lowered_text(ast, job['roots'], {}, cuts=job.get('cuts', ()), line_directives=False, drop_contracts=True)
         # ghost-return instrumentation must stay (postconditions mention the ghosts)
         gspecs = {k: {kk: vv for kk, vv in v.items() if kk in ('ghost_returns',)} for k, v in job.get('specs', {}).items()}
-        text, lw = R.lowered_text(ast, job['roots'], gspecs, cuts=job.get('cuts', ()), line_directives=False)
+        text, lw = R.lowered_text(ast, job['roots'], gspecs, cuts=job.get('cuts', ()), line_directives=False, drop_contracts=True)
         ghosts = job.get('ghosts', [])
         K = job.get('cex_K', 6)
         hg = RP.HarnessGen(lw, fn, job['specs'][fn], ghosts, K=K)
@@ -84,7 +83,9 @@ def concretise(job, unit, res, workdir, log):
             return out
         out['cex_property'] = prop
         out['cex_description'] = desc
-        out['inputs'] = {n: vals.get(n, 0) for n, t in hg.inputs}
+        out['inputs'] = {hg.paths.get(n, n): vals.get(n, 0) for n, t in hg.inputs}
+        out['ensures'] = job['specs'][fn].get('ensures', [])
+        out['requires'] = job['specs'][fn].get('requires', [])
         with open(os.path.join(jd, 'inputs.h'), 'w') as f:
             for n, t in hg.inputs:
                 f.write('#define QX_VAL_%s 0x%xULL\n' % (n, vals.get(n, 0) & 0xFFFFFFFFFFFFFFFF))
@@ -113,7 +114,7 @@ def concretise(job, unit, res, workdir, log):
             out['note'] = 'native replay does not link: ' + o3[-1200:]
             return out
         rc4, o4 = RP.run([exe], timeout=60, cwd=jd, env=dict(os.environ, ASAN_OPTIONS='detect_leaks=0'))
-        out['native_output'] = o4[-3000:]
+        out['native_output'] = o4 if len(o4) < 3000 else o4[:2200] + '\n...\n' + o4[-600:]
         out['native_rc'] = rc4
         # ghost-return values are not observable on the real code; postconditions that mention them are
         # re-evaluated natively through the ghost-free formulation when the spec provides one
@@ -200,22 +201,37 @@ def run_property(pid, tier, seed, workdir, t0, a):
     known = [k for k in load_known() if k.get('property') == pid]
     violations = []
     kf_lines = []
+    shutil.rmtree(os.path.join(VERIF, 'replays', pid), ignore_errors=True)
     os.makedirs(os.path.join(VERIF, 'replays', pid), exist_ok=True)
     for r in failed:
         tot, ok, bad = r.counts()
         cx = concretise(r.job, r.job['unit'], r, workdir, log)
+        fresh = []
         for o in bad:
-            rec = dict(property=pid, job=r.name, obligation=o['name'], description=o['description'],
-                       source='%s:%s' % (o['file'], o['line']), clause=r.job.get('clause', ''),
-                       cbmc_cmds=r.cmds, cbmc_log=r.log[-2000:], concretisation=cx)
             kf = match_known(known, r.name, o, cx)
             if kf:
                 kf_lines.append('KNOWN-FINDING: property=%s %s [%s %s]' % (pid, kf['what'], r.name, o['name']))
-                continue
-            path = os.path.join(VERIF, 'replays', pid, re.sub(r'[^A-Za-z0-9_.-]', '_', r.name + '.' + o['name']) + '.json')
-            with open(path, 'w') as f:
-                json.dump(rec, f, indent=1, default=str)
-            violations.append((path, cx.get('reproduced')))
+            else:
+                fresh.append(o)
+        if not fresh:
+            continue
+        internal = all(re.search(r'\.(loop_invariant_base|loop_invariant_step|loop_assigns|loop_decreases|loop_step_unwinding)\.\d+$', o['name']) for o in fresh)
+        if internal and not cx.get('reproduced'):
+            # only proof-internal obligations (invariant / variant) failed and the bounded concretisation has no failing
+            # input: the proof no longer goes through, but no property clause is refuted -> undecided, not a violation
+            r.status = 'undecided'
+            r.reason = 'proof-internal obligations failed (%s) and no failing input exists up to the concretisation bound: invariant needs maintenance' % ', '.join(o['name'].split('.', 1)[1] for o in fresh[:4])
+            undecided.append(r)
+            continue
+        # primary obligation: the first failing postcondition / memory-safety check; consequences listed after it
+        rec = dict(property=pid, job=r.name, clause=r.job.get('clause', ''),
+                   obligation=fresh[0]['name'], description=fresh[0]['description'], source='%s:%s' % (fresh[0]['file'], fresh[0]['line']),
+                   failed_obligations=[dict(name=o['name'], description=o['description'], source='%s:%s' % (o['file'], o['line'])) for o in fresh],
+                   cbmc_cmds=r.cmds, cbmc_log=r.log[-2000:], concretisation=cx)
+        path = os.path.join(VERIF, 'replays', pid, re.sub(r'[^A-Za-z0-9_.-]', '_', r.name) + '.json')
+        with open(path, 'w') as f:
+            json.dump(rec, f, indent=1, default=str)
+        violations.append((path, cx.get('reproduced')))
     for l in sorted(set(kf_lines)):
         log(l)
     # evidence
@@ -308,7 +324,7 @@ BASE_ASSUME = [
 
 def do_replay(path):
     rec = json.load(open(path))
-    print(json.dumps({k: rec[k] for k in ('property', 'job', 'obligation', 'description', 'source', 'clause')}, indent=1))
+    print(json.dumps({k: rec.get(k) for k in ('property', 'job', 'clause', 'obligation', 'description', 'source', 'failed_obligations')}, indent=1))
     cx = rec.get('concretisation', {})
     print('inputs:', cx.get('inputs'))
     print('reproduced natively:', cx.get('reproduced'))
